@@ -195,6 +195,21 @@ func c07OutboxAlphabet(m *sx.Model, stack string) []sx.Op {
 		{Kind: "Mpu", B: "bka", K: "k1", Parts: []string{"x", "y"}, Opt: map[string]string{"ifnm": "*"}},
 		{Kind: "Mpu", B: "bka", K: "k1", Parts: []string{"x", "y"}, Opt: map[string]string{"ifm": "cur"}},
 	}
+	// the multipart steps one by one: a write may be queued between the creation of an upload and its completion
+	if len(m.Uploads) == 0 {
+		ops = append(ops, sx.Op{Kind: "CreateUpload", B: "bka", K: "k1"})
+	}
+	for _, uo := range m.UploadOrds() {
+		u := m.Uploads[uo]
+		if len(u.Parts) == 0 {
+			ops = append(ops, sx.Op{Kind: "UploadPart", B: u.B, K: u.K, U: uo, N: 1, Body: "x"})
+			continue
+		}
+		ops = append(ops,
+			sx.Op{Kind: "Complete", B: u.B, K: u.K, U: uo, Opt: map[string]string{"ifnm": "*"}},
+			sx.Op{Kind: "Complete", B: u.B, K: u.K, U: uo, Opt: map[string]string{"ifm": "cur"}},
+			sx.Op{Kind: "Complete", B: u.B, K: u.K, U: uo})
+	}
 	sortOps(ops)
 	return ops
 }
@@ -223,7 +238,9 @@ func TestC07(t *testing.T) {
 		bound = 3
 	}
 	ob := &sx.Search{Run: run, TestRun: "^TestWorker$", Spec: sx.SpecByName("C07outbox"), Depth: 3, Stacks: []string{world.StackSQL},
-		Seeds: [][]sx.Op{{{Kind: "CreateBucket", B: "bka"}}}}
+		Seeds: [][]sx.Op{{{Kind: "CreateBucket", B: "bka"}},
+			// an open upload with one part in a flushed bucket
+			{{Kind: "CreateBucket", B: "bka"}, {Kind: "WorkerStep"}, {Kind: "CreateUpload", B: "bka", K: "k1"}, {Kind: "UploadPart", B: "bka", K: "k1", U: 1, N: 1, Body: "x"}}}}
 	if !quick() {
 		ob.Depth = 4
 	}
